@@ -15,6 +15,10 @@ func Now() orig.Time {
 	if !vrt.Active() {
 		return orig.Now().Add(Offset)
 	}
+	if vrt.S.TickNow {
+		// a real clock never returns the same instant twice: successive reads differ
+		vrt.S.Clock++
+	}
 	return orig.Unix(0, vrt.S.Clock)
 }
 func Since(t orig.Time) orig.Duration { return Now().Sub(t) }
